@@ -121,6 +121,23 @@ def search(ctx, disagreements):
     from lxml import etree
     ncli = 12 if ctx.thorough() else 4
     cli_items, cli_cases = [], []
+    # the option combinations the command line offers, on fixed documents the library converts with the same options
+    _doc = ('<svg xmlns="http://www.w3.org/2000/svg" viewBox="0 0 40 40"><image width="5" height="5"/><text x="2" y="9">t</text>'
+            '<rect width="9" height="9"/><g opacity="0.5"><foo/><circle r="3"/><rect x="9" width="4" height="4"/></g></svg>')
+    SVG = pipeline.impl()
+    for at_, dr_ in ((True, True), (False, True)):
+        o_, _ = common.outcome_of(lambda: SVG.fromstring(_doc).topicosvg(allow_text=at_, drop_unsupported=dr_))
+        if o_ != "ok":
+            continue
+        c_ = {"src": _doc, "ndigits": 3, "allow_text": at_, "drop_unsupported": dr_, "kind": "cli-flags"}
+        rc, out = cli_run(_doc, at_, dr_)
+        ctx.count("cli-flags:rc%d" % rc)
+        if rc != 0:
+            found.append({"kind": "grammar", "input": c_, "tag": None, "detail": "the library converts this document with allow_text=%s drop_unsupported=%s but the CLI with the same flags exits with %d" % (at_, dr_, rc)})
+            continue
+        root = etree.fromstring(out.encode("utf-8"), etree.XMLParser(remove_blank_text=True))
+        cli_items.append((tw.encode(root), 3, at_))
+        cli_cases.append(c_)
     for c, r in okruns[:ncli * 3]:
         if c["ndigits"] != 3:
             continue
